@@ -116,5 +116,32 @@ def hlocoSimStep (k : Consts α) (l : HLoco α) (req dt : α) (engineOn : Option
   ensure (almostEq req l.state.pwrOut k.eps) "loco-sim-pwr-mismatch"
   pure l
 
+/-! ### consist-level fuel / battery roll-up over all three locomotive types
+    (`Consist::get_energy_fuel`, `Consist::get_net_energy_res`: every unit that has an engine / a battery
+    counts — hybrids included; `Consist.lean` models conventional and battery units only) -/
+
+/-- what the roll-up reads of one unit: cumulative fuel energy of its engine, cumulative chemical
+    energy of its battery -/
+inductive UnitE (α : Type) where
+  | conv (fuel : α)
+  | bel (chem : α)
+  | hyb (fuel chem : α)
+  deriving Repr
+
+def unitFuel : UnitE α → α
+  | .conv f => f
+  | .bel _ => 0
+  | .hyb f _ => f
+
+def unitChem : UnitE α → α
+  | .conv _ => 0
+  | .bel c => c
+  | .hyb _ c => c
+
+/-- `Consist::get_energy_fuel` -/
+def consistFuel (us : List (UnitE α)) : α := sumLeft (us.map unitFuel)
+/-- `Consist::get_net_energy_res` -/
+def consistChem (us : List (UnitE α)) : α := sumLeft (us.map unitChem)
+
 end
 end Altrios.Hyb
